@@ -13,6 +13,13 @@ CLAIMED = {
          "in-process on exhaustive-small and random inputs and comparing with the model and with the declarative spec.",
          "Lean kernel + propext/Classical.choice/Quot.sound; harness and driver; std::stoi/lexical_cast literal syntax and boost::char_separator modelled.",
          "6/C18"),
+ "C13": ("Lean 4 proof (bin index always in range, code wrap = Euclidean residue, nearest-centre bounds, weight conservation by induction over "
+         "the stream, normalisation, legacy auto range) + exact-rational correspondence with the real classes under ASan/UBSan",
+         "Theorems for every range, bin count, value and weight stream about an exact-arithmetic model of HistogramNew::Process/Normalize and "
+         "the legacy automatic range; tied to the working tree by running the real classes (release-like build under ASan, so an out-of-range "
+         "write aborts) on dyadic streams compared bin by bin exactly, plus generic doubles away from bin edges.",
+         "Lean kernel + three standard axioms; harness/driver; IEEE rounding not modelled (exact stream avoids it); the cast guard |bin|<9e18 is modelled.",
+         "6/C13"),
 }
 REASONS = {}
 
@@ -36,7 +43,7 @@ def main():
           for p in ALL if p not in CLAIMED]
     m = {
         "version": 1,
-        "setup_cmd": "cd lean && lake build && cd .. && python3 tools/vbuild.py tools csg",
+        "setup_cmd": "cd lean && lake build && cd .. && python3 tools/setup_warm.py",
         "hooks": {
             "guard": "VOTCA_VERIF",
             "enable": "checks compile /repo sources themselves (tools/vbuild.py) with -DVOTCA_VERIF; /repo/_build is never used",
